@@ -63,6 +63,13 @@ Fixpoint name_assoc {B} (k : list Z) (l : list (list Z * B)) : option B :=
   | (k', v) :: l' => if zlist_eqb k k' then Some v else name_assoc k l'
   end.
 
+(* the first n elements, n a Go int (no unary numbers: n may be math.MaxInt) *)
+Fixpoint zfirstn {A} (n : Z) (l : list A) : list A :=
+  match l with
+  | [] => []
+  | x :: l' => if n <=? 0 then [] else x :: zfirstn (n - 1) l'
+  end.
+
 Definition nonempty {A} (l : list A) : bool := match l with [] => false | _ => true end.
 
 (* ------------------------------------------------------------------------------------------ *)
@@ -654,7 +661,7 @@ Definition toks_of (d : rdata) : option (list rtok) := toks_of_rules (rd_strings
 
 (* which matches a call processes: the first [count] in scan order, all of them for count < 0 *)
 Definition take_count (count : Z) (ms : list mtch) : list mtch :=
-  if count <? 0 then ms else firstn (Z.to_nat count) ms.
+  if count <? 0 then ms else zfirstn count ms.
 
 (* the fold: [ms] in ascending text order, everything outside the matches kept *)
 Fixpoint fold_matches (f : mtch -> list Z) (text : list Z) (prev : Z) (ms : list mtch) : list Z :=
@@ -673,9 +680,9 @@ Definition replace_spec (rtl : bool) (ms : list mtch) (toks : list rtok) (count 
 
 (* Split.  Which matches are processed (split.go:26-34 and the loop condition): *)
 Definition split_processed (count : Z) (ms : list mtch) : list mtch :=
-  if count =? -1 then firstn (Z.to_nat maxint) ms
+  if count =? -1 then zfirstn maxint ms
   else if count <=? 1 then []
-  else firstn (Z.to_nat count) ms.
+  else zfirstn count ms.
 
 Definition group_texts (text : list Z) (m : mtch) : list (list Z) :=
   map (cap_text text) (tl (m_groups m)).
